@@ -180,6 +180,11 @@ func (pr *PolicyResolver) OnPolicyMatchStopped(policyKey model.PolicyKey, endpoi
 	// This policy is not active anymore, we no longer need to track it for sorting.
 	if !pr.policyIDToEndpointIDs.ContainsKey(policyKey) {
 		pr.policySorter.UpdatePolicy(policyKey, nil)
+		// Also drop any update that is still pending from when the policy became
+		// active; otherwise Flush() would re-add the now-inactive policy to the
+		// sorter, where it would go stale (updates to inactive policies are not
+		// passed to the sorter).
+		pr.pendingPolicyUpdates.Discard(policyKey)
 	}
 
 	pr.dirtyEndpoints.Add(endpointKey)
